@@ -29,6 +29,10 @@ type c18Case struct {
 	IndexMax int
 	Actions  []string // reads | batch | notify | stats
 	Batches  []*model.Batch
+	// Shape: "" = a history with data; "empty" = nothing was ever persisted
+	// (empty directory or junk only); "childonly" = the history only created
+	// an empty child collection (a footer without any segment).
+	Shape string `json:",omitempty"`
 }
 
 func dirState(dir string) (map[string]string, error) {
@@ -111,9 +115,26 @@ func genC18(r *eng.Rng, th bool) *c18Case {
 	for i := 0; i < na; i++ {
 		c.Actions = append(c.Actions, acts[r.Intn(len(acts))])
 	}
-	bg := eng.NewBatchGen(r, eng.GenParams{NKeys: 6})
+	bg := eng.NewBatchGen(r, eng.GenParams{NKeys: 6, Children: r.Chance(1, 2), ChildOnlyPct: 30})
 	for i := 0; i < 2; i++ {
 		c.Batches = append(c.Batches, bg.Next())
+	}
+	switch r.Intn(8) {
+	case 0:
+		c.Shape = "empty"
+		var nd []string
+		for _, d := range c.Decor {
+			switch d {
+			case "junkname", "readme", "subdir", "tmp":
+				nd = append(nd, d)
+			}
+		}
+		c.Decor = nd
+		c.Build = &eng.Program{Prop: "C18", Cfg: cfg}
+	case 1:
+		c.Shape = "childonly"
+		c.Build = &eng.Program{Prop: "C18", Cfg: cfg, Steps: []eng.Step{
+			{K: "batch", B: &model.Batch{Children: []model.ChildBatch{{Name: "A", B: &model.Batch{}}}}}, {K: "drain"}}}
 	}
 	return c
 }
@@ -145,6 +166,12 @@ func runC18(cs *c18Case, scratch string, idx int, sr *run.ShardResult) (class, d
 		return "inconclusive", "", "pending removals"
 	}
 	files := dataFiles(dir)
+	if cs.Shape == "empty" {
+		for _, f := range files { // (an empty store writes nothing; be sure)
+			os.Remove(filepath.Join(dir, f))
+		}
+		files = []string{moss.FormatFName(9)} // only a name to number decorations after
+	}
 	if len(files) != 1 {
 		if len(files) == 0 {
 			return "inconclusive", "", "build produced no data file"
@@ -158,7 +185,7 @@ func runC18(cs *c18Case, scratch string, idx int, sr *run.ShardResult) (class, d
 	cur := files[0]
 	seq, _ := moss.ParseFNameSeq(cur)
 	// make room below for an older file
-	if seq < 3 {
+	if seq < 3 && cs.Shape != "empty" {
 		nn := moss.FormatFName(seq + 4)
 		os.Rename(filepath.Join(dir, cur), filepath.Join(dir, nn))
 		cur, seq = nn, seq+4
@@ -217,6 +244,9 @@ func runC18(cs *c18Case, scratch string, idx int, sr *run.ShardResult) (class, d
 	if disc == "" {
 		disc = "clean"
 	}
+	if cs.Shape != "" {
+		disc = cs.Shape + ":" + disc
+	}
 	sr.Units[fmt.Sprintf("dir:%s|keep=%v", disc, cs.KeepFile)]++
 	before, err := dirState(dir)
 	if err != nil {
@@ -242,6 +272,12 @@ func runC18(cs *c18Case, scratch string, idx int, sr *run.ShardResult) (class, d
 		after, _ := dirState(dir)
 		if d := diffState(before, after); d != "" {
 			return "readonly-open-modified-directory", disc, "open failed (" + oerr.Error() + ") and the directory changed: " + d
+		}
+		if cs.Shape == "empty" {
+			// no valid data file here: whether a junk-only directory opens at
+			// all is not this property's business, only that nothing changed
+			sr.Units["open-refused-without-touching:"+disc]++
+			return "", disc, ""
 		}
 		return "readonly-open-failed", disc, fmt.Sprintf("ReadOnly open of a directory holding the valid data file %s failed: %v (files: %v)", cur, oerr, eng.DirFiles(dir))
 	}
@@ -401,6 +437,20 @@ func fillModelBatch(b moss.Batch, mb *model.Batch) error {
 			return err
 		}
 	}
+	for _, name := range mb.DelChildren {
+		if err := b.DelChildCollection(name); err != nil {
+			return err
+		}
+	}
+	for _, cb := range mb.Children {
+		child, err := b.NewChildCollectionBatch(cb.Name, moss.BatchOptions{})
+		if err != nil {
+			return err
+		}
+		if err := fillModelBatch(child, cb.B); err != nil {
+			return err
+		}
+	}
 	return nil
 }
 
@@ -410,15 +460,15 @@ func init() {
 	ck := &run.Check{
 		Prop:  "C18",
 		Level: "exploration",
-		Rule: "for each case a steered program persists a history into a directory, which is then decorated with what earlier runs or crashes can leave (an older complete data file of an unrelated store, zero-length / header-only / 1000-byte / footer-less newer data files, an unparsable data-zzz.moss, README, sub-directory, .tmp); the directory is hashed (names, sizes, SHA-256), opened with CollectionOptions.ReadOnly through a recording File substrate (KeepFiles on/off, index settings), read (must equal the persisted reference content), subjected to reads / up to 2 batches / asynchronous notifications / stats, closed, and hashed again after quiescence; any difference, any successful create-open, write (n>0), truncate or writable open in the recorded file operations, or a failing open, is a violation. distinct_nontrivial = distinct (decoration set | KeepFiles) pairs and action kinds.",
+		Rule: "for each case a steered program persists a history into a directory (one case in eight each: nothing ever persisted - an empty directory or junk only; a history that only created an empty child collection, i.e. a footer without segments), which is then decorated with what earlier runs or crashes can leave (an older complete data file of an unrelated store, zero-length / header-only / 1000-byte / footer-less newer data files, an unparsable data-zzz.moss, README, sub-directory, .tmp); the directory is hashed (names, sizes, SHA-256), opened with CollectionOptions.ReadOnly through a recording File substrate (KeepFiles on/off, index settings), read (must equal the persisted reference content), subjected to reads / up to 2 batches (half of the cases with batches that create child collections) / asynchronous notifications / stats / direct Store.Persist calls of the collection's snapshot with every compaction concern, closed, and hashed again after quiescence; any difference, any successful create-open, write (n>0), truncate or writable open in the recorded file operations, or a failing open, is a violation. distinct_nontrivial = distinct (decoration set | KeepFiles) pairs and action kinds.",
 		MinUnits:    10,
 		Assumptions: []string{"mutating operations that are attempted but refused by the OS (EBADF on an O_RDONLY descriptor) are counted, not reported: the property is about effects", "no merger runs in ReadOnly mode, so synchronous notifications and more than MaxPreMergerBatches-1 batches (which block by design) are not used"},
 	}
 	ck.Run = func(c *run.Ctx) *run.ShardResult {
 		sr := run.NewShardResult()
-		n := 320
+		n := 960
 		if c.Thorough() {
-			n = 4800
+			n = 9600
 		}
 		for idx := 0; idx < n; idx++ {
 			if !c.Mine(idx) {
